@@ -7,8 +7,9 @@ From Coq Require Import String.
 
 Inductive event :=
 | EWrite (b : list byte)                 (* write_all(b) *)
-| EPad (n : N)                           (* align: n calls of write_all(&[0]) *)
+| EPad (u n : N)                         (* align to unit u: n calls of write_all(&[0]) *)
 | EBlock (t : ty) (b : list byte)        (* write_bytes::<t>(b): a single write_all *)
+| EItem (t : ty) (b : list byte)         (* one item of a SerIter: write_bytes::<t>(b) *)
 | EEnter (nm : name) (t : ty)            (* entry of backend.write(nm, &v) with v : t *)
 | ELeave
 | EAliasBegin                            (* a fake Vec aliasing a borrowed slice is created (never dropped) *)
@@ -21,8 +22,8 @@ Definition sres := (list event * sout)%type.
 
 Definition ev_len (e : event) : N :=
   match e with
-  | EWrite b | EBlock _ b => nlen b
-  | EPad n => n
+  | EWrite b | EBlock _ b | EItem _ b => nlen b
+  | EPad _ n => n
   | _ => 0
   end.
 Fixpoint evs_len (es : list event) : N :=
@@ -30,20 +31,20 @@ Fixpoint evs_len (es : list event) : N :=
 
 Definition ev_bytes (e : event) : list byte :=
   match e with
-  | EWrite b | EBlock _ b => b
-  | EPad n => zeros n
+  | EWrite b | EBlock _ b | EItem _ b => b
+  | EPad _ n => zeros n
   | _ => []
   end.
 Fixpoint bytes_of (es : list event) : list byte :=
   match es with [] => [] | e :: r => ev_bytes e ++ bytes_of r end.
 
 (* a writer: from the current stream position to the events it emits *)
-Definition W := N -> sres.
+Definition Wr := N -> sres.
 
-Definition wdone : W := fun _ => ([], SDone).
-Definition wev (e : event) : W := fun _ => ([e], SDone).
-Definition wpanic (w : pwhy) : W := fun _ => ([], SPanic w).
-Definition wseq (a b : W) : W := fun pos =>
+Definition wdone : Wr := fun _ => ([], SDone).
+Definition wev (e : event) : Wr := fun _ => ([e], SDone).
+Definition wpanic (w : pwhy) : Wr := fun _ => ([], SPanic w).
+Definition wseq (a b : Wr) : Wr := fun pos =>
   let '(ea, oa) := a pos in
   match oa with
   | SDone => let '(eb, ob) := b (pos + evs_len ea) in (ea ++ eb, ob)
@@ -52,13 +53,13 @@ Definition wseq (a b : W) : W := fun pos =>
 Notation "a ;; b" := (wseq a b) (at level 61, left associativity).
 
 (* WriteWithNames::align::<V>() with V::max_size_of() = u *)
-Definition walign (u : N) : W := fun pos =>
+Definition walign (u : N) : Wr := fun pos =>
   if u =? 0 then ([], SPanic PArith) else
   let p := pad_align_to pos u in
-  if p =? 0 then ([], SDone) else ([EPad p], SDone).
+  if p =? 0 then ([], SDone) else ([EPad u p], SDone).
 
 (* backend.write(nm, &v) *)
-Definition wfield (nm : name) (t : ty) (w : W) : W := wev (EEnter nm t) ;; w ;; wev ELeave.
+Definition wfield (nm : name) (t : ty) (w : Wr) : Wr := wev (EEnter nm t) ;; w ;; wev ELeave.
 
 Definition N_len : name := bs "len".
 Definition N_item : name := bs "item".
@@ -79,42 +80,42 @@ Definition TUSIZE := TPrim (PInt USize).
 Definition TU8 := TPrim (PInt U8).
 Definition TBOOL := TPrim PBool.
 
-Definition wusize (nm : name) (n : N) : W := wfield nm TUSIZE (wev (EWrite (le_bytes 8 n))).
-Definition wu8 (nm : name) (n : N) : W := wfield nm TU8 (wev (EWrite (le_bytes 1 n))).
+Definition wusize (nm : name) (n : N) : Wr := wfield nm TUSIZE (wev (EWrite (le_bytes 8 n))).
+Definition wu8 (nm : name) (n : N) : Wr := wfield nm TU8 (wev (EWrite (le_bytes 1 n))).
 
 (* the items of a deep sequence, each through backend.write("item", item) *)
-Fixpoint wlist (f : val -> W) (nm : name) (t : ty) (l : list val) : W :=
+Fixpoint wlist (f : val -> Wr) (nm : name) (t : ty) (l : list val) : Wr :=
   match l with
   | [] => wdone
   | x :: l' => wfield nm t (f x) ;; wlist f nm t l'
   end.
 
 (* SerIter, zero-copy items: each item through serialize_zero_unchecked (one write_bytes each) *)
-Fixpoint witems (pf : padfill) (t : ty) (l : list val) : W :=
+Fixpoint witems (pf : padfill) (t : ty) (l : list val) : Wr :=
   match l with
   | [] => wdone
-  | x :: l' => (fun pos => ([EBlock t (mem_repr pf pos t x)], SDone)) ;; witems pf t l'
+  | x :: l' => (fun pos => ([EItem t (mem_repr pf pos t x)], SDone)) ;; witems pf t l'
   end.
 
 (* serialize_zero: check_zero_copy, align, write_bytes *)
-Definition wzero (pf : padfill) (t : ty) (v : val) : W :=
+Definition wzero (pf : padfill) (t : ty) (v : val) : Wr :=
   if is_zc_const t then
     walign (unit_of t) ;; (fun pos => ([EBlock t (mem_repr pf pos t v)], SDone))
   else wpanic PNotZeroCopy.
 
 (* serialize_slice_zero: check_zero_copy, len, align, write_bytes of the whole slice *)
-Definition wslice_zero (pf : padfill) (t : ty) (l : list val) : W :=
+Definition wslice_zero (pf : padfill) (t : ty) (l : list val) : Wr :=
   if is_zc_const t then
     wusize N_len (nlen l) ;; walign (unit_of t) ;;
     (fun pos => ([EBlock t (mem_repr_list (fun p x => mem_repr pf p t x) (size_of t) pos l)], SDone))
   else wpanic PNotZeroCopy.
 
-Definition wbytes_zero (l : list byte) : W :=
+Definition wbytes_zero (l : list byte) : Wr :=
   wusize N_len (nlen l) ;; walign 1 ;; wev (EBlock TU8 l).
 
 Definition field_ser_name (named : bool) (nm : name) : name := if named then nm else N_v ++ nm.
 
-Fixpoint ser (pf : padfill) (t : ty) (v : val) {struct t} : W :=
+Fixpoint ser (pf : padfill) (t : ty) (v : val) {struct t} : Wr :=
   match t with
   | TPrim p => wev (EWrite (le_bytes (N.to_nat (psize p)) (vnum v)))
   | TUnit | TPhantom _ | TRangeFull => wdone
@@ -170,13 +171,13 @@ Fixpoint ser (pf : padfill) (t : ty) (v : val) {struct t} : W :=
       if a_zc i then wzero pf t v
       else wusize N_tag (vtag v) ;; ser_variants pf vs (vtag v) (vseq_items v)
   end
-with ser_fields (pf : padfill) (named : bool) (fs : fields) (vals : list val) {struct fs} : W :=
+with ser_fields (pf : padfill) (named : bool) (fs : fields) (vals : list val) {struct fs} : Wr :=
   match fs with
   | FNil => wdone
   | FCons nm _ t r =>
       wfield (field_ser_name named nm) t (ser pf t (hd (VSeq []) vals)) ;; ser_fields pf named r (tl vals)
   end
-with ser_variants (pf : padfill) (vs : variants) (k : N) (vals : list val) {struct vs} : W :=
+with ser_variants (pf : padfill) (vs : variants) (k : N) (vals : list val) {struct vs} : Wr :=
   match vs with
   | VNil => wdone     (* unreachable for a value of the type *)
   | VCons _ named fs r =>
